@@ -20,9 +20,13 @@ package auparse
 //@   && strIsNum(t[b+1:c], 10, true) && -9223372036854775808 <= strIval(t[b+1:c], 10) && strIval(t[b+1:c], 10) <= 9223372036854775807
 //@   && strIsNum(t[c+1:d], 10, false) && 0 <= strUval(t[c+1:d], 10) && strUval(t[c+1:d], 10) < 4294967296
 
+//@ spec hdrShape(t string, a int, b int, c int, d int) bool := 0 <= a && a < b && b < c && c < d && d < len(t)
+//@   && t[a] == '(' && noByte(t, 0, a, '(') && t[b] == '.' && noByte(t, a, b, '.') && t[c] == ':' && noByte(t, b, c, ':') && t[d] == ')' && noByte(t, c, d, ')')
 //@ func auparse.parseAuditHeader
 //@ forall-params a int, b int, c int, d int
 //@ modifies alloc
+// a header of the right shape whose sequence is not a 32-bit number is malformed
+//@ ensures[C04] hdrShape(line, a, b, c, d) && !(strIsNum(line[c+1:d], 10, false) && strUval(line[c+1:d], 10) < 4294967296) ==> !isNil(result3)
 //@ ensures[C04] wfHeader(line, a, b, c, d) ==> isNil(result3) && result1 == strUval(line[c+1:d], 10) && result2 == d
 //@ ensures[C04] wfHeader(line, a, b, c, d) && -9223372036854 <= strIval(line[b+1:c], 10) && strIval(line[b+1:c], 10) <= 9223372036854 ==> result0 == timeUnix(strIval(line[a+1:b], 10), strIval(line[b+1:c], 10) * 1000000)
 //@ ensures[C05] isNil(result3) ==> 0 <= result2 && result2 < len(line)
